@@ -221,3 +221,18 @@ Qed.
 
 Lemma be_bytes_2 v : be_bytes 2 v = [(v / 256) mod 256; v mod 256].
 Proof. cbn [be_bytes]. rewrite pow256_nat_1, pow256_nat_0, N.div_1_r. reflexivity. Qed.
+
+Lemma be_bytes_mod k v : be_bytes k (v mod 256 ^ N.of_nat k) = be_bytes k v.
+Proof.
+  rewrite (N.div_mod v (256 ^ N.of_nat k)) at 2 by (apply N.pow_nonzero; discriminate).
+  rewrite (N.mul_comm (256 ^ N.of_nat k)). symmetry. apply be_bytes_add_high.
+Qed.
+
+Lemma fold_width_add (l : list field) : forall a,
+  fold_left (fun acc f => acc + snd f) l a = a + fold_left (fun acc f => acc + snd f) l 0.
+Proof.
+  induction l as [|x t IH]; intros a; cbn [fold_left]; [lia|]. rewrite IH, (IH (0 + snd x)). lia.
+Qed.
+
+Lemma fields_width_app l1 l2 : fields_width (l1 ++ l2) = fields_width l1 + fields_width l2.
+Proof. unfold fields_width. rewrite fold_left_app. apply fold_width_add. Qed.
